@@ -17,6 +17,7 @@ def consts():
         _C['rows'] = {r[0]: r for r in t['SRPC_ROWS']}
         _C['dispatch'] = {0: [r[0] for r in t['DISPATCH_DEV']], 1: [r[0] for r in t['DISPATCH_DEVCFG']]}
         _C['TRUE'] = t['SRPC_RESULT_TRUE']
+        _C['rs_funcs'] = [r[0] for r in t['CONFIG_FUNCS'] if r[1] == 1]; _C['fb_funcs'] = [r[0] for r in t['CONFIG_FUNCS'] if r[1] == 2]
     return _C
 
 # ---------------------------------------------------------------------------------------------
@@ -171,7 +172,8 @@ class C03(F.PropCheck):
     rule = ('GATE: every call id of the switch and its neighbours x payload lengths (quick: 0..40 + rule boundaries; thorough: 0..600 exhaustive) x '
             'consistent / inconsistent / huge count fields; DEVICE: generated boards (relay-only, 1-4 shutters, action-trigger inputs) x dev/devcfg x '
             'set-value, group set-value, calcfg, channel-config (all functions, ButtonsUpsideDown/MotorUpsideDown 0..3, sizes), finished, '
-            'result messages, mis-sized twins, channels existing/nonexistent/255/random, with time advances; '
+            'result messages, mis-sized twins, countdown-timer scenarios (SKEW), a sweep of every shutter-like function x call id x channel 0..7 '
+            'x ButtonsUpsideDown/MotorUpsideDown toggles on 4- and 2-shutter devcfg boards, channels existing/nonexistent/255/random, with time advances; '
             'non-trivial = a message was accepted or a cell changed; distinct by sha256 of the event text')
 
     # ---------------- build: two binaries + a router
@@ -266,11 +268,11 @@ class C03(F.PropCheck):
             t = lambda: rng.choice([0, 1000, 60000, -1, 2 ** 31 - 1])
             ud = lambda: rng.choice([0, 1, 2, 2, 3, 255])
             tm = lambda: rng.choice([-1, 0, 1, 50, 101, 102, -128, 127])
-            if f < 0.4: func, cfg = rng.choice(RS_FUNCS), c_rs(t(), t(), ud(), ud(), tm(), rng.getrandbits(8))
-            elif f < 0.6: func, cfg = rng.choice(FB_FUNCS), c_fb(t(), t(), t(), ud(), ud(), tm(), rng.choice([0, 1, 2, 3, 255]))
+            if f < 0.4: func, cfg = rng.choice(C['rs_funcs']), c_rs(t(), t(), ud(), ud(), tm(), rng.getrandbits(8))
+            elif f < 0.6: func, cfg = rng.choice(C['fb_funcs']), c_fb(t(), t(), t(), ud(), ud(), tm(), rng.choice([0, 1, 2, 3, 255]))
             elif f < 0.75: func, cfg = rng.choice(RELAY_FUNCS), struct.pack('<i', rng.choice([0, 500, 10000, -1]))
             elif f < 0.85: func, cfg = 700, struct.pack('<I', rng.getrandbits(32))
-            else: func, cfg = rng.choice([0, -1, 1, 2 ** 31 - 1, rng.choice(RS_FUNCS)]), bytes(rng.getrandbits(8) for _ in range(rng.choice([0, 4, 43, 44, 45, 52, 53, 54, 512])))
+            else: func, cfg = rng.choice([0, -1, 1, 2 ** 31 - 1, rng.choice(C['rs_funcs'] + C['fb_funcs'])]), bytes(rng.getrandbits(8) for _ in range(rng.choice([0, 4, 43, 44, 45, 52, 53, 54, 512])))
             ctype = rng.choice([0, 0, 0, 0, 1, 255])
             if rng.random() < 0.12: cfg = cfg[:rng.randrange(0, len(cfg) + 1)]
             if rng.random() < 0.08: cfg = cfg + bytes(rng.randrange(1, 60))
@@ -330,8 +332,32 @@ class C03(F.PropCheck):
         if len(evs) and evs[-1][0] == 'SRV' and stop < 0.15: evs.append(('ADV', [1500000], b''))
         return F.Case(cid, evs, sorted(tags))
 
+    def config_sweep(self, rng, tier):
+        """every shutter-like function of the dispatch switch (generated list) x both call ids x channels 0..7 on devcfg boards
+        with 4 shutters / 2 shutters + 2 relays: ButtonsUpsideDown and MotorUpsideDown toggled against the stored values"""
+        C = consts(); cases = []
+        def board(nrs):
+            pins = [0, 1, 2, 3, 4, 5, 12, 13]; relays = []; rs = []; inputs = []
+            for i in range(nrs): relays += [(pins[2 * i], i, 0, 0), (pins[2 * i + 1], i, 0, 0)]; rs.append((2 * i, 2 * i + 1))
+            for k in range(nrs, 4): relays.append((pins[2 * k], k, 0, 0))
+            for j in range(7):
+                rg = relays[j][0] if j < len(relays) else 255
+                inputs.append((6 + j if j < 6 else 14, 1, 0, rg, 255, 0))
+            return Board(1, 0, relays, rs, inputs)
+        for nrs in (4, 2):
+            b = board(nrs)
+            for func in C['rs_funcs'] + C['fb_funcs']:
+                mk = (lambda mud, bud: c_fb(1000, 1000, 300, mud, bud, rng.choice([0, 1, 20]), rng.choice([0, 1, 2]))) if func in C['fb_funcs'] \
+                    else (lambda mud, bud: c_rs(1000, 1000, mud, bud, rng.choice([0, 1, 20])))
+                for call in (C['CALL_GET_CONFIG_RESULT'], C['CALL_SET_CONFIG']):
+                    for ch in range(8):
+                        evs = [('CFG', b.ints(), b''), ('SRV', [call, 10], m_config(ch, func, 0, mk(2, 2))), ('ADV', [100000], b''),
+                               ('SRV', [call, 11], m_config(ch, func, 0, mk(1, 1))), ('SRV', [call, 12], m_config(ch, func, 0, mk(1, 2)))]
+                        cases.append(F.Case('s%s_%d_%d_%d_%d' % (tier[0], nrs, func, call, ch), evs, ['config_sweep', 'devcfg', 'device']))
+        return cases
+
     def gen_cases(self, rng, n, tier):
-        cases = []
+        cases = self.config_sweep(rng, tier)
         if tier != 'search': cases += self.gate_cases(rng, tier)
         for i in range(n): cases.append(self.device_case(rng, '%s%d' % (tier[0], i), tier))
         return cases
